@@ -449,6 +449,8 @@ BREAKING = [
      "        except (csv.Error, UnicodeError) as error:", "        except (csv.Error, UnicodeDecodeError) as error:", ["C10"]),
     ("tokens: a lone surrogate (UnicodeEncodeError) not converted", "cutplace/_tools.py",
      "    except (SyntaxError, UnicodeError) as error:", "    except (SyntaxError, UnicodeDecodeError) as error:", ["C10"]),
+    ("fixed cells: every white space stripped, not only blanks", "cutplace/fields.py",
+     '            possibly_stripped_value = value.strip(" ")', "            possibly_stripped_value = value.strip()", ["C03", "C20"]),
     ("DecimalRange: only NaN refused", "cutplace/ranges.py",
      "        if not value_as_decimal.is_finite():", "        if value_as_decimal.is_nan():", ["C02"]),
     ("__exit__: end checks replace the pending error", "cutplace/validio.py",
